@@ -44,12 +44,13 @@ TOL_SYMNUM = 1e-25  # sympy numbers evaluated to 40 digits
 _F = lambda *xs: tuple(Fr(x) for x in xs)
 LATTICE = dict(
     quick=dict(K=_F("1/5", "1/3", 1, 2, 5), V=_F("1/5", "1/3", 1, 2, 5), P=_F(0, "1/2", 2), N=_F(1, 2), S=_F(0, "1/2"), T=_F(0, "1/7", 1, 3)),
-    thorough=dict(K=_F("1/7", "1/3", 1, 2, 5, 11), V=_F("1/7", "1/3", 1, 2, 5, 11), P=_F(0, "1/2", 2, 7), N=_F(1, 2, 3), S=_F(0, "1/2", 2),
-                  T=_F(0, "1/7", "1/2", 1, 3)),
+    thorough=dict(K=_F("1/11", "1/5", "1/3", "1/2", 1, 2, 3, 5, 11), V=_F("1/11", "1/5", "1/3", "1/2", 1, 2, 3, 5, 11), P=_F(0, "1/9", "1/2", 2, 7),
+                  N=_F(1, 2, 3), S=_F(0, "1/2", 2), T=_F(0, "1/7", "1/2", 1, 2, 3)),
 )
+# max kf*|major-minor|*t on the thorough lattice is 11*(11-1/11)*3 = 360 < 709: no exp() overflow in doubles anywhere on the lattice
 # the (slow) "sympy backend called with rational numbers" spelling is enumerated on this sub-lattice, in both tiers
 SN_LATTICE = dict(K=_F("1/3", 1, 5), V=_F("1/3", 1, 5), P=_F(0, "1/2"), N=_F(1, 2), S=_F(0, "1/2"), T=_F(0, "1/7", 3))
-NUM_SPELLINGS = ("default", '"numpy"', "numpy", '"math"', "math", "numpy[array t]", "sympy[numbers]")
+NUM_SPELLINGS = ("default", '"numpy"', "numpy", '"math"', "math", "numpy[array t]", "default[array t]", "sympy[numbers]")
 DIMER_SPELLINGS = ("float", "numpy[array t]", "sympy[numbers]")
 
 
@@ -201,6 +202,7 @@ def _num_spelling_kw(sp_name):
         '"math"': dict(backend="math"),
         "math": dict(backend=math),
         "numpy[array t]": dict(backend=numpy),
+        "default[array t]": dict(omit_defaults=True),
         "sympy[numbers]": dict(backend="sympy"),
     }[sp_name]
 
@@ -212,7 +214,9 @@ def _coarse(regime):
 
 
 def _family(sp_name):
-    return "numpy" if sp_name in ("default", "float") or "numpy" in sp_name else ("math" if "math" in sp_name else "sympy-numbers")
+    if sp_name.startswith("default"):
+        return "default"
+    return "numpy" if sp_name == "float" or "numpy" in sp_name else ("math" if "math" in sp_name else "sympy-numbers")
 
 
 # ------------------------------------------------------------------------------------------------ one state
@@ -312,7 +316,7 @@ def _check_numeric(res, name, p, T, refs, sp_name, case):
         return _check_sympy_numbers(res, name, p, T, refs, case, kw, t0)
     pf = {q: (int(p[q]) if q == "n" else _fl(p[q])) for q in m["params"]}
     obs = []  # per time: list of component values or an 'EXC' tag
-    if sp_name == "numpy[array t]":
+    if sp_name.endswith("[array t]"):
         res.transitions += 1
         try:
             with np.errstate(all="ignore"):
